@@ -16,7 +16,9 @@ use std::sync::Mutex;
 
 pub struct C15;
 
-pub const KINDS: [&str; 9] = ["err1", "err", "errlong", "unknown", "empty", "unbalanced", "exit", "crash", "garbage"];
+pub const KINDS: [&str; 11] = [
+    "err1", "err", "errlong", "unknown", "empty", "unbalanced", "exit", "crash", "garbage", "extraclose", "tailclose",
+];
 
 fn n_systems(tier: Tier) -> u64 {
     match tier {
@@ -202,7 +204,7 @@ impl Prop for C15 {
         "fault_enumeration"
     }
     fn rule(&self) -> String {
-        "fault enumeration: fixed generated systems (safe and unsafe) x engine {bmc, pdr with unsat-core generalisation, pdr without, a bare SolverContext session: declare/assert/check-sat/get-value/check-sat-assuming/get-unsat-assumptions/push/pop} ; a clean run under the reference solver's log gives the number N of response-bearing points (check-sat, check-sat-assuming, get-value, get-unsat-assumptions); then EVERY position n <= min(N, 12 quick / 80 thorough) x 9 fault kinds (error reply with a 1-character, a typical and a 4 kB message; `unknown`; empty line; unbalanced reply followed by exit; silent exit; crash with non-zero status; non-s-expression garbage) is injected at the n-th response. Each faulted run executes in a killable child process under a 25 s limit (clean: < 1 s). The result must be an error or an Unknown verdict - never success/failure (the fault sits on an answer the run consumed), never a panic, never a timeout; for error replies the returned error must contain the solver's message verbatim. Non-trivial: position > 1 and a kind other than silent exit; distinct by (system, engine, position, kind).".into()
+        "fault enumeration: fixed generated systems (safe and unsafe) x engine {bmc, pdr with unsat-core generalisation, pdr without, a bare SolverContext session: declare/assert/check-sat/get-value/check-sat-assuming/get-unsat-assumptions/push/pop} ; a clean run under the reference solver's log gives the number N of response-bearing points (check-sat, check-sat-assuming, get-value, get-unsat-assumptions); then EVERY position n <= min(N, 12 quick / 80 thorough) x 11 fault kinds (error reply with a 1-character, a typical and a 4 kB message; `unknown`; empty line; unbalanced reply followed by exit; silent exit; crash with non-zero status; non-s-expression garbage; a lone `)` and `unsat)` - more closing than opening parentheses - with the solver staying alive) is injected at the n-th response. Each faulted run executes in a killable child process under a 25 s limit (clean: < 1 s). The result must be an error or an Unknown verdict - never success/failure (the fault sits on an answer the run consumed), never a panic, never a timeout; for error replies the returned error must contain the solver's message verbatim. Non-trivial: position > 1 and a kind other than silent exit; distinct by (system, engine, position, kind).".into()
     }
     fn assumptions(&self) -> Vec<String> {
         vec!["a run that needs more than 25 s after a fault (clean runs take < 1 s) is counted as blocking forever".into()]
